@@ -258,6 +258,12 @@ func (m *Muxer) validate() error {
 	}
 	// Check that frame dimensions fit within the canvas.
 	canvasW, canvasH := m.canvasSize()
+	// The VP8X canvas fields hold width-1 and height-1 in 24 bits, and the
+	// container parser of this package refuses canvases of 2^30 pixels or
+	// more: a larger canvas cannot be written down or read back.
+	if canvasW > 1<<24 || canvasH > 1<<24 || uint64(canvasW)*uint64(canvasH) >= 1<<30 {
+		return fmt.Errorf("%w: canvas %dx%d too large", ErrMuxValidation, canvasW, canvasH)
+	}
 	for i, f := range m.frames {
 		if f.opts.OffsetX < 0 || f.opts.OffsetY < 0 {
 			// The ANMF offset fields are unsigned 24-bit values: a negative offset
